@@ -18,7 +18,7 @@ META = {
         "every flavour, from a thread payload that drives a private event loop), services (created before / after "
         "start / inside payloads) or executed (from outside threads, thread payloads and payloads of the other "
         "coroutine flavour), each alternating synchronous sections (overlap detector, context probe) and "
-        "checkpoints; 0-4 thread payloads blocking for 0.6 s; line-level delay injection. The identity check "
+        "checkpoints; 0-4 thread payloads blocking for 0.6 s, sometimes a crowd of 40-130 of them while coroutine payloads adopt more, adoption of thread payloads while thread creation fails (injected fault); line-level delay injection. The identity check "
         "(one thread + one loop / one trio run per flavour over the whole run) is deterministic, the overlap "
         "detector a probabilistic second line. Non-trivial = both flavours had >= 2 payloads; distinct by shape."
     ),
@@ -139,6 +139,27 @@ def gen_case(rnd, spec):
                 gen["payloads"].append(small)
                 ops += [["adopt", small["id"]], ["sleep", 0.06]]
             gen["payloads"].append({"id": new("chatty"), "flavour": fl, "when": "queued", "program": ops + [["beat", 0.02, None]], "cleanup": {"kind": "none"}})
+    # a crowd of blocking thread payloads, with coroutine payloads adopting more thread payloads meanwhile
+    if rnd.random() < 0.25:
+        crowd = rnd.choice([40, 70, 130])
+        for i in range(crowd):
+            gen["payloads"].append({"id": new("crowd"), "flavour": "threading", "when": "queued", "program": [["block", 0.6]], "cleanup": {"kind": "none"}})
+        for fl in common.COROUTINE:
+            ops = [["sleep", 0.1]]
+            for j in range(6):
+                small = {"id": new("late"), "flavour": "threading", "program": [["ctx"], ["sleep", 0.01]], "cleanup": {"kind": "none"}}
+                gen["payloads"].append(small)
+                ops += [["adopt", small["id"]], ["sleep", 0.05]]
+            gen["payloads"].append({"id": new("feeder"), "flavour": fl, "when": "queued", "program": ops + [["beat", 0.02, None]], "cleanup": {"kind": "none"}})
+        gen.setdefault("tags", []).append("crowd")
+    # adoption of a thread payload while the OS cannot start new threads
+    if rnd.random() < 0.3:
+        for fl in common.COROUTINE:
+            victim = {"id": new("nothread"), "flavour": "threading", "program": [["ctx"], ["block", 0.3]], "cleanup": {"kind": "none"}}
+            gen["payloads"].append(victim)
+            gen["payloads"].append({"id": new("starved"), "flavour": fl, "when": "queued", "cleanup": {"kind": "none"},
+                                    "program": [["sleep", 0.05], ["adopt_no_threads", victim["id"]], ["beat", 0.02, None]]})
+        gen.setdefault("tags", []).append("no_threads")
     script.append(["sleep", 0.9])
     script.append(["quiesce"])
     gen["script"] = script
@@ -217,8 +238,11 @@ def judge(case, run, result):
             else:
                 result.count("heartbeats_during_blocking", len(beats))
         result.count("blocking_thread_payloads_observed")
-    if run.of("raised", gen=0, op="adopt"):
-        e = run.of("raised", gen=0, op="adopt")[0]
+    for tag in gen.get("tags", []):
+        result.count("scenarios_with_%s" % tag)
+    unexpected = [e for e in run.of("raised", gen=0, op="adopt") if not e["pid"].startswith("nothread")]
+    if unexpected:
+        e = unexpected[0]
         problems.append(("adopt of %s by %s raised %s(%s)" % (e["pid"], e["by"], e["exc"], e["msg"]), None))
     result.count("sections_that_adopt_checked", sum(1 for p in gen["payloads"] for op in p.get("program", []) if op[0] == "crit_adopt"))
     if any(p["id"].startswith("xblock") for p in gen["payloads"]) and run.of("block-start", gen=0):
@@ -253,7 +277,7 @@ def run_shard(spec):
 
 def finish(total, tier):
     need = ["synchronous_sections_checked", "blocking_thread_payloads_observed", "heartbeats_during_blocking", "scenarios_with_foreign_loop_submitter",
-            "steps_adopted_threading", "sections_that_adopt_checked", "blocking_executes_observed"]
+            "steps_adopted_threading", "sections_that_adopt_checked", "blocking_executes_observed", "scenarios_with_crowd", "scenarios_with_no_threads"]
     need += ["steps_%s_%s" % (r, f) for r in ("adopted", "service", "executed") for f in common.COROUTINE]
     for name in need:
         if not total.counters.get(name) and not total.violations:
